@@ -324,3 +324,43 @@ package atree
 //@   modifies ArrayMetaDataSlab.childrenHeaders@inSub(a), ArrayMetaDataSlab.childrenCountSum@inSub(a), ArrayMetaDataSlab.header@inSub(a),
 //@        ArrayDataSlab.elements@inSub(a), ArrayDataSlab.header@inSub(a), ArrayDataSlab.next@inSub(a), ghost.sto, ghost.stored, ghost.touched, alloc,
 //@        as(valueRoot(value), *ArrayDataSlab).header, as(valueRoot(value), *ArrayDataSlab).inlined, as(valueRoot(value), *MapDataSlab).header, as(valueRoot(value), *MapDataSlab).inlined
+
+//@ func (a *ArrayMetaDataSlab) Insert(storage, address, index, value) (err)  serves C01 C03 C05 C06 C09 C18
+//@   requires storage != nil && value != nil && wfMeta(a) && metaLinked(a) && len(a.childrenHeaders) >= 2 && a.header.size + 14 <= 4294967295 && a.header.count < 4294967295
+//@   assume childrenReady(a) because "tree invariant (composition): children of a are well-formed, in band, linked, and their subtrees do not contain a"
+//@   assume !inSub(a, valueRoot(value)) because "frame assumption F: the value being stored is not a container inside the subtree of a"
+//@   uses monoCS
+//@   ensures[C18] index > old(a.header.count) ==> err != nil && isUser(err) && sto == old(sto) && touched == old(touched) &&
+//@        a.childrenHeaders == old(a.childrenHeaders) && a.childrenCountSum == old(a.childrenCountSum) && a.header == old(a.header)
+//@   ensures[C06] err == nil ==> wfMeta(a) && a.header.count == old(a.header.count) + 1 && a.header.slabID == old(a.header.slabID)
+//@   ensures[C06] err == nil ==> a.header.size <= old(a.header.size) + 14 && a.header.size >= old(a.header.size) && a.extraData == old(a.extraData)
+//@   ensures[C09] err == nil ==> sto[a.header.slabID] == a && distinctChildren(a)
+//@   ensures[C09] err == nil ==> agree(a)
+//@   ensures[C05] err == nil ==> (forall k :: 0 <= k && k < len(a.childrenHeaders) ==> hdrBand(a.childrenHeaders[k]))
+//@   ensures[C03] err == nil ==> has(stored, a)
+//@   ensures[C18] err != nil ==> categorised(err)
+//@   modifies ArrayMetaDataSlab.childrenHeaders@inSub(a), ArrayMetaDataSlab.childrenCountSum@inSub(a), ArrayMetaDataSlab.header@inSub(a),
+//@        ArrayDataSlab.elements@inSub(a), ArrayDataSlab.header@inSub(a), ArrayDataSlab.next@inSub(a), ghost.sto, ghost.stored, ghost.touched, alloc,
+//@        as(valueRoot(value), *ArrayDataSlab).header, as(valueRoot(value), *ArrayDataSlab).inlined, as(valueRoot(value), *MapDataSlab).header, as(valueRoot(value), *MapDataSlab).inlined
+//@   loop 1: invariant childHeaderIndex <= i && i <= len(a.childrenCountSum) && len(a.childrenCountSum) == len(a.childrenHeaders) &&
+//@        a.childrenHeaders == old(a.childrenHeaders) && a.header.count == old(a.header.count) + 1 && a.header.size == old(a.header.size) && a.header.slabID == old(a.header.slabID) &&
+//@        (forall k :: 0 <= k && k < len(a.childrenCountSum) ==> a.childrenCountSum[k] == old(a.childrenCountSum)[k] + ite(childHeaderIndex <= k && k < i, 1, 0))
+
+//@ func (a *ArrayMetaDataSlab) Remove(storage, index) (v, err)  serves C01 C03 C05 C06 C09 C18
+//@   requires storage != nil && wfMeta(a) && metaLinked(a) && len(a.childrenHeaders) >= 2
+//@   assume childrenReady(a) because "tree invariant (composition): children of a are well-formed, in band, linked, and their subtrees do not contain a"
+//@   uses monoCS
+//@   ensures[C18] index >= old(a.header.count) ==> err != nil && isUser(err) && sto == old(sto) && touched == old(touched) &&
+//@        a.childrenHeaders == old(a.childrenHeaders) && a.childrenCountSum == old(a.childrenCountSum) && a.header == old(a.header)
+//@   ensures[C06] err == nil ==> wfMeta(a) && a.header.count == old(a.header.count) - 1 && a.header.slabID == old(a.header.slabID)
+//@   ensures[C06] err == nil ==> a.header.size <= old(a.header.size) && a.header.size + 14 >= old(a.header.size) && a.extraData == old(a.extraData)
+//@   ensures[C09] err == nil ==> sto[a.header.slabID] == a && distinctChildren(a)
+//@   ensures[C09] err == nil ==> agree(a)
+//@   ensures[C05] err == nil ==> (forall k :: 0 <= k && k < len(a.childrenHeaders) ==> hdrBand(a.childrenHeaders[k]))
+//@   ensures[C03] err == nil ==> has(stored, a)
+//@   ensures[C18] err != nil ==> categorised(err)
+//@   modifies ArrayMetaDataSlab.childrenHeaders@inSub(a), ArrayMetaDataSlab.childrenCountSum@inSub(a), ArrayMetaDataSlab.header@inSub(a),
+//@        ArrayDataSlab.elements@inSub(a), ArrayDataSlab.header@inSub(a), ArrayDataSlab.next@inSub(a), ghost.sto, ghost.stored, ghost.touched, alloc
+//@   loop 1: invariant childHeaderIndex <= i && i <= len(a.childrenCountSum) && len(a.childrenCountSum) == len(a.childrenHeaders) &&
+//@        a.childrenHeaders == old(a.childrenHeaders) && a.header.count == old(a.header.count) - 1 && a.header.size == old(a.header.size) && a.header.slabID == old(a.header.slabID) &&
+//@        (forall k :: 0 <= k && k < len(a.childrenCountSum) ==> a.childrenCountSum[k] == old(a.childrenCountSum)[k] - ite(childHeaderIndex <= k && k < i, 1, 0))
